@@ -10,7 +10,7 @@ from .. import gen, scen
 from .. import refsnmp as S
 from ..loop import OP_TAG, keyed
 from ..runner import rng_for
-from ..world import PASSWORDS, World, agent_for
+from ..world import PASSWORDS, World, agent_for, agent_user, make_credentials
 
 ID = "C14"
 LEVEL = "exploration"
@@ -33,7 +33,8 @@ ASSUMPTIONS = [
     "lossy configuration: an operation may end in Timeout instead of its solo result, never in a different result",
 ]
 PROBES = ["shared_client", "multi_client", "v3_concurrent_discovery", "complete_permutation_group", "contains_walk",
-          "same_request_id_in_flight", "lossy", "lossy_timeout", "set_in_group", "six_ops", "overlapping_walks", "distinct_request_ids_in_flight", "operation_abandoned_by_caller"]
+          "same_request_id_in_flight", "lossy", "lossy_timeout", "set_in_group", "six_ops", "overlapping_walks", "distinct_request_ids_in_flight", "operation_abandoned_by_caller",
+          "temporary_reconfiguration_in_group"]
 shrink_lists = [("ops",)]
 BASE = (1, 3, 6, 1, 2, 1, 7)
 #: SET targets lie before every object any operation reads: GETNEXT/GETBULK only move forward, so no read can ever reach them
@@ -118,8 +119,24 @@ def plan_for(tier: str, seed: int, i: int) -> dict:
     cancel = None
     if not all_single and erng.random() < 0.2:
         cancel = {"op": erng.randrange(k), "after_ticks": erng.choice([1, 3, 10, 50, 300])}
+    # - in a quarter of the single-exchange groups the LAST operation runs under a temporary reconfiguration (other
+    #   credentials of the same family) that is entered after every other operation has sent its request and left before
+    #   any of them is answered: nothing of it may be visible to the others.  The clients are warmed up first (discovery done).
+    reconf = None
+    if all_single and erng.random() < 0.25:
+        ci = ops[-1]["client"]
+        base = clients[ci]["proto"]
+        if base["version"] == "v3":
+            alt = {"version": "v3", "user": erng.choice(["guest", base["user"]]), "level": 0}
+            if alt["user"] == base["user"]:
+                alt = {"version": "v3", "user": "operator", "level": 1, "auth": "md5", "auth_pass": PASSWORDS[3]}
+        else:
+            alt = {"version": "v2c", "community": "rw-" + base["community"]}
+        keys = [o for o, _ in clients[ci]["mib"]]
+        ops[-1] = {"client": ci, "op": {"op": "get", "oid": erng.choice(keys)}, "reconf": alt}
+        reconf = {"op": k - 1}
     return {"prop": ID, "clients": clients, "ops": ops, "perm_index": perm_index, "latseed": mrng.getrandbits(40),
-            "clock_mode": clock_mode, "cancel": cancel,
+            "clock_mode": clock_mode, "cancel": cancel, "reconf": reconf,
             "complete": bool(all_single and math.factorial(k) <= 24),
             "faults": gen.gen_faults(mrng, lossy, timeout=3), "lossy": lossy, "epoch": rng.choice([1000, 1_700_000_000])}
 
@@ -131,6 +148,9 @@ def valid(plan: dict) -> bool:
 def simplify(plan: dict):
     if plan.get("cancel"):
         p = dict(plan); p["cancel"] = None; yield p
+    if plan.get("reconf"):
+        p = dict(plan); p["reconf"] = None
+        p["ops"] = [{k2: v for k2, v in o.items() if k2 != "reconf"} for o in plan["ops"]]; yield p
     if plan.get("clock_mode") == "stepping":
         p = dict(plan); p["clock_mode"] = "tied"; yield p
     if plan["perm_index"] is not None and plan["perm_index"] != 0:
@@ -158,8 +178,17 @@ def _run(plan: dict, only: Optional[int]) -> dict:
               clock={"mode": plan.get("clock_mode", "tied"), "epoch": plan["epoch"], "step": 1})
     agents = []
     clients = []
-    for c in plan["clients"]:
+    reconf_i = (plan.get("reconf") or {}).get("op")
+    for ci0, c in enumerate(plan["clients"]):
         ag = agent_for(c["proto"], dict(c["mib"]))
+        for item in plan["ops"]:
+            alt = item.get("reconf")
+            if alt and item["client"] == ci0:
+                if alt["version"] == "v3":
+                    u = agent_user(alt)
+                    ag.users[u.name] = u
+                else:
+                    ag.communities[1].add(alt["community"].encode())
         w.add_agent(ag, tuple(c["addr"]))
         agents.append(ag)
         clients.append(w.client(c["proto"], addr=tuple(c["addr"]), timeout=3, retries=3 if plan["lossy"] else 1))
@@ -171,8 +200,10 @@ def _run(plan: dict, only: Optional[int]) -> dict:
 
     def tag_latency(direction: str, tag: tuple) -> Optional[int]:
         opi, n = tag
-        if direction == "c2a":
+        if direction == "c2a" or isinstance(opi, tuple):
             return 1
+        if reconf_i is not None and opi == reconf_i:
+            return 1                    # the reconfigured exchange is over before any other operation is answered
         if rank and only is None:
             # single-exchange groups: the data exchange is the last socket the operation opens;
             # answer order = the permutation; discovery answers come first in a seeded order
@@ -186,7 +217,14 @@ def _run(plan: dict, only: Optional[int]) -> dict:
 
     async def runop(j: int) -> None:
         OP_TAG.set(j)
-        coro = scen.do_op(clients[plan["ops"][j]["client"]], plan["ops"][j]["op"])
+        item = plan["ops"][j]
+        coro = scen.do_op(clients[item["client"]], item["op"])
+        if item.get("reconf"):
+            async def under_reconfigure(cl: Any = clients[item["client"]], alt: dict = item["reconf"], op: dict = item["op"]) -> Any:
+                with cl.reconfigure(credentials=make_credentials(alt)):
+                    return await scen.do_op(cl, op)
+            coro.close()
+            coro = under_reconfigure()
         try:
             if cancel and cancel["op"] == j:
                 # the caller gives up on this operation: it is cancelled wherever it happens to be
@@ -199,6 +237,10 @@ def _run(plan: dict, only: Optional[int]) -> dict:
             results[j] = ("exc", type(e).__name__, str(e)[:120])
 
     async def main() -> None:
+        if plan.get("reconf"):
+            for ci1, cl in enumerate(clients):      # warm-up: engine discovery is done before the group starts
+                OP_TAG.set(("warm", ci1))
+                await cl.get(scen.OID(plan["clients"][ci1]["mib"][0][0]))
         idx = [only] if only is not None else list(range(k))
         await asyncio.gather(*[asyncio.ensure_future(runop(j)) for j in idx])
 
@@ -269,7 +311,9 @@ def execute(plan: dict) -> dict:
         for r in ag.requests:
             if r["verdict"] in ("bad_community", "malformed") or r["verdict"].startswith("report:") and not r.get("discovery"):
                 fail("foreign-or-rejected-request", "agent %d: request #%d verdict %s" % (ci, r["n"], r["verdict"]))
-            if proto["version"] == "v3" and r.get("user") not in (None, proto["user"].encode()):
+            alts = [it["reconf"]["user"].encode() for it in plan["ops"] if it.get("reconf") and it["client"] == ci
+                    and it["reconf"]["version"] == "v3"]
+            if proto["version"] == "v3" and r.get("user") not in [None, proto["user"].encode()] + alts:
                 fail("foreign-or-rejected-request", "agent %d saw user %r" % (ci, r.get("user")))
         bad = {k: v for k, v in ag.stats.items() if v and k != "unknown_engine"}
         if bad and not plan["lossy"]:
@@ -291,7 +335,7 @@ def execute(plan: dict) -> dict:
         "contains_walk": int(any(k in MULTI for k in kinds)),
         "overlapping_walks": int(sum(1 for k in kinds if k in MULTI) >= 2), "same_request_id_in_flight": int(conc["same_rid"]),
         "lossy": int(plan["lossy"]), "lossy_timeout": lossy_timeout, "set_in_group": int("set" in kinds or "multiset" in kinds),
-        "six_ops": int(len(kinds) == 6),
+        "six_ops": int(len(kinds) == 6), "temporary_reconfiguration_in_group": int(bool(plan.get("reconf"))),
         "distinct_request_ids_in_flight": int(plan.get("clock_mode") == "stepping"),
         "operation_abandoned_by_caller": int(any(r[0] == "abandoned" for r in conc["results"].values())),
     }
